@@ -58,6 +58,14 @@ def check(ctx):
     c16.r16_1(ctx, pf, loop, info16)
     c16.r16_2(ctx, pf, loop)
     ctx.not_decided.append("composition of the two directions on canonical records (round-trip equality as a whole)")
+    # mechanisms this property rests on (see shared.py): a change there is reported here as well
+    from . import shared as _sh
+
+    _sh.gaf_reader(ctx)
+    _sh.tag_parser(ctx)
+    _sh.graph_loader(ctx)
+    _sh.contig_paths(ctx)
+    _sh.cli_layer(ctx, "gaftools.cli.view")
 
 
 def r02_1(ctx, m):
